@@ -15,13 +15,13 @@ import MpVerif.C20.ModelExport
 -/
 open MpVerif.C20
 
-def hexDigit (c : Char) : Option Nat := hexVal c
+def hexDig? (c : Char) : Option Nat := hexVal c
 
 def unhexBytes (s : List Char) : Option ByteArray :=
   let rec go : List Char → ByteArray → Option ByteArray
     | [], acc => some acc
     | a :: b :: r, acc =>
-      match hexDigit a, hexDigit b with
+      match hexDig? a, hexDig? b with
       | some x, some y => go r (acc.push (UInt8.ofNat (x * 16 + y)))
       | _, _ => none
     | _, _ => none
